@@ -50,6 +50,9 @@ class FnVerifier(Verifier):
                     raise OutOfSubset('old() outside a postcondition')
                 o = self._old_stack[-1].fork()
                 o.spec = True
+                for k_, v_ in st.env.items():          # bound variables of enclosing quantifiers, result, ...
+                    if k_ not in o.env:
+                        o.env[k_] = v_
                 # locals of the current state that are not in the old state (e.g. result) stay invisible
                 return self.ev.ev(o, e.args[0])
             if f.id in ('forall', 'exists'):
@@ -83,11 +86,16 @@ class FnVerifier(Verifier):
         return k, sp
 
     def assigned_names(self, body):
+        """Names (re)bound by these statements; comprehension targets live in their own scope and do not count."""
         out = set()
-        for st_ in body:
-            for n in ast.walk(st_):
-                if isinstance(n, ast.Name) and isinstance(n.ctx, ast.Store):
-                    out.add(n.id)
+        todo = list(body)
+        while todo:
+            n = todo.pop()
+            if isinstance(n, (ast.ListComp, ast.DictComp, ast.SetComp, ast.GeneratorExp, ast.Lambda)):
+                continue
+            if isinstance(n, ast.Name) and isinstance(n.ctx, ast.Store):
+                out.add(n.id)
+            todo.extend(ast.iter_child_nodes(n))
         return out
 
     def written_heap(self, body):
@@ -98,7 +106,10 @@ class FnVerifier(Verifier):
                 if isinstance(n, ast.Attribute) and isinstance(n.ctx, ast.Store):
                     flds.add(n.attr)
                 if isinstance(n, ast.Subscript) and isinstance(n.ctx, (ast.Store, ast.Del)):
-                    flds.update(['$len', '$elR', '$elS'])
+                    flds.update(['$len', '$elR', '$elS', '$mhasS', '$mvalS', '$mhasR', '$mvalR'])
+                if isinstance(n, ast.DictComp):
+                    flds.update(['$mhasS', '$mvalS', '$mhasR', '$mvalR'])
+                    alloc = True
                 if isinstance(n, (ast.List, ast.ListComp)):
                     alloc = True
                 if isinstance(n, ast.Call):
@@ -256,6 +267,11 @@ class FnVerifier(Verifier):
                 a = [self.as_int(self.ev.ev(st, x)) for x in it.args]
                 lo, hi = (z3.IntVal(0), a[0]) if len(a) == 1 else (a[0], a[1])
                 seq = None
+        elif isinstance(it, ast.Call) and isinstance(it.func, ast.Attribute) and it.func.attr == 'items' and not it.args:
+            m = self.ev.ev(st, it.func.value)
+            if isinstance(m, VMap):
+                return self.split_pend(st) + self.for_map_items(st, s, k, sp, m)
+            seq = self.ev.ev(st, it)
         else:
             seq = self.ev.ev(st, it)
         outs = self.split_pend(st)
@@ -302,8 +318,33 @@ class FnVerifier(Verifier):
                 raise OutOfSubset('for loop over a list while lists are mutated in the body')
         def post_havoc(h):
             h.env['_i'] = h.env[ivar]
-        res = self.run_loop(st, s, k, sp, guard, pre_body, s.body, s.orelse, extra_names=[ivar], post_havoc=post_havoc)
+        tnames = [n.id for n in ast.walk(s.target) if isinstance(n, ast.Name)]     # the loop target is rebound too
+        res = self.run_loop(st, s, k, sp, guard, pre_body, s.body, s.orelse, extra_names=[ivar] + tnames, post_havoc=post_havoc)
         return outs + res
+
+    def for_map_items(self, st, s, k, sp, m):
+        """for key, value in <dict>.items(): the body runs for an arbitrary entry, any number of times (finite dict:
+        termination assumed, listed as A-DICTITER).  Keys written to the same dict in the body are allowed."""
+        mt = m.t
+        kk, vk = m.kk, m.vk
+
+        def guard(h):
+            return z3.Bool(fresh_name('more_items'))
+
+        def pre_body(b):
+            key = z3.Const(fresh_name('key'), S if kk == 'str' else I)
+            b.pc.append(b.mhas(mt, key, kk))
+            keyv = VStr(key) if kk == 'str' else (VAny(key) if vk else VInt(key))
+            if kk != 'str':
+                keyv = VAny(key)
+            val = self.map_value(b, VMap(mt, kk, vk), key)
+            if isinstance(val, (VRef, VMap, VList)):
+                b.pc.append(val.t != 0)
+            self.assign(b, s.target, VTuple([keyv, val]))
+        sp = dict(sp)
+        sp.setdefault('decreases', None)
+        tnames = [n.id for n in ast.walk(s.target) if isinstance(n, ast.Name)]
+        return self.run_loop(st, s, k, sp, guard, pre_body, s.body, s.orelse, extra_names=tnames)
 
     def unroll_for(self, st, s, items):
         outs = []
@@ -392,6 +433,7 @@ class FnVerifier(Verifier):
                 return self.obs
             self.note('cover:requires', DISCHARGED, 'precondition satisfiable (%s)' % v)
             self.entry = st.fork()
+            self._old_stack = [self.entry]          # old() in loop invariants refers to the function entry
             outs = self.exec_block(st, self.fn.body)
             nret = 0
             for o in outs:
